@@ -40,7 +40,8 @@ class Worker:
     def local(self, frame, event, arg):
         if event == "line":
             self.where = (frame.f_code.co_name, frame.f_lineno)
-            self.wheres.append(frame.f_code.co_name)
+            # the first-call trampoline is renamed to the function's own name: recognise it by its closure
+            self.wheres.append("first_entry" if frame.f_code.co_freevars == ("ov",) else frame.f_code.co_name)
             self.steps += 1
             # park: tell the scheduler we are at a point, wait for permission to execute this line
             self.go.clear()
